@@ -157,14 +157,6 @@ theorem session_spec {p : Program} {s : St} (inv : Inv p s) {ws : List Write}
         rcases cls x nx hx with h | ⟨hl, _, d, hp, hi⟩
         · exact inv.kind x nx h
         · exact ⟨d, hp, hi, fun _ => ⟨hl.2.1, hl.2.2⟩⟩
-      · intro pa x nx hx hkx d o nd' hm hnd'
-        rcases cls x nx hx with h | ⟨hl, _⟩
-        · obtain ⟨_, nd, hnd⟩ := inv.down x nx h d o hm
-          obtain ⟨n1, hn1, hk1⟩ := keepNode d nd hnd
-          have hnd'' : s1.nodes d = some nd' := hnd'
-          rw [hn1] at hnd''; cases hnd''
-          rw [hk1]; exact inv.pjFw pa x nx h hkx d o nd hm hnd
-        · rcases hl.1 with h | h <;> rw [hkx] at h <;> cases h
       · intro x nx hx hkx d o nd' hm hnd'
         rcases cls x nx hx with h | ⟨hl, _⟩
         · obtain ⟨_, nd, hnd⟩ := inv.down x nx h d o hm
@@ -173,31 +165,31 @@ theorem session_spec {p : Program} {s : St} (inv : Inv p s) {ws : List Write}
           rw [hn1] at hnd''; cases hnd''
           rw [hk1]; exact inv.pjKinds x nx h hkx d o nd hm hnd
         · rcases hl.1 with h | h <;> rw [hkx] at h <;> cases h
-      · intro sp x nx dx ks hx hpx hkx hstx
+      · intro x nx dx ks hx hpx hkx hstx
         rcases cls x nx hx with h | ⟨hl, _⟩
-        · refine inv.pjStat_transfer sp ?_ h hpx hkx hstx
+        · refine inv.pjStat_transfer ?_ h hpx hkx hstx
           intro d nd hnd hkd
-          have : s1.nodes d = some nd := fwpjSame d nd hnd hkd
+          have : s1.nodes d = some nd := fwpjSame d nd hnd (hkd.imp id (·.1))
           simp only [front, hmn, this, hnd]
         · rcases hl.1 with h | h <;> rw [hkx] at h <;> cases h
-      · intro sp x nx g o gn hx hm hg hkg
+      · intro x nx g o gn hx hm hg hkg hsg
         have hg1 : s1.nodes g = some gn := hg
         have hg0 : s.nodes g = some gn := by
           rcases cls g gn hg1 with h | ⟨hl, _⟩
           · exact h
           · rcases hl.1 with h | h <;> rw [hkg] at h <;> cases h
         rcases cls x nx hx with h | ⟨⟨_, h, _⟩, _⟩
-        · exact inv.pjSeen sp x nx g o gn h hm hg0 hkg
+        · exact inv.pjSeen x nx g o gn h hm hg0 hkg hsg
         · rw [h] at hm; cases hm
-      · intro sp g gn hg hkg hpg
+      · intro g gn hg hkg hsg hpg
         have hg1 : s1.nodes g = some gn := hg
         have hg0 : s.nodes g = some gn := by
           rcases cls g gn hg1 with h | ⟨hl, _⟩
           · exact h
           · rcases hl.1 with h | h <;> rw [hkg] at h <;> cases h
-        obtain ⟨c, o, hm, hc⟩ := inv.pjCause sp g gn hg0 hkg hpg
+        obtain ⟨c, o, hm, hc⟩ := inv.pjCause g gn hg0 hkg hsg hpg
         obtain ⟨_, nc, hnc⟩ := inv.down g gn hg0 c o hm
-        have := fwpjSame c nc hnc (inv.pjKinds g gn hg0 hkg c o nc hm hnc)
+        have := fwpjSame c nc hnc ((inv.pjKinds g gn hg0 hkg c o nc hm hnc).imp id (·.1))
         refine ⟨c, o, hm, ?_⟩
         have hc' : nc.pendingBP = true := by simpa [hasPending, hnc] using hc
         simp [hasPending, hmn, this, hc']
@@ -206,7 +198,7 @@ theorem session_spec {p : Program} {s : St} (inv : Inv p s) {ws : List Write}
         · obtain ⟨_, nd, hnd⟩ := inv.down x nx h d o hm
           have hkd := inv.pjKinds x nx h hkx d o nd hm hnd
           have hnd'' : s1.nodes d = some nd' := hnd'
-          have e := (fwpjSame d nd hnd hkd).symm.trans hnd''
+          have e := (fwpjSame d nd hnd (hkd.imp id (·.1))).symm.trans hnd''
           obtain rfl := Option.some.inj e
           exact inv.pjBroken x nx h hkx d o nd hm hnd hne
         · rcases hl.1 with h | h <;> rw [hkx] at h <;> cases h
